@@ -5060,6 +5060,8 @@ class Symbol:
                         self._write_to_conf = True
                         self._has_active_indirect_set = True
                     else:
+                        # the ignored `set` is not an active one (do not keep the flag of an earlier evaluation)
+                        self._has_active_indirect_set = False
                         num2str = str if base == 10 else hex
                         log.note(
                             f"indirectly set value {candidate_val.str_value} on "
@@ -5224,6 +5226,8 @@ class Symbol:
                         self._write_to_conf = True
                         self._has_active_indirect_set = True
                     else:
+                        # the ignored `set` is not an active one (do not keep the flag of an earlier evaluation)
+                        self._has_active_indirect_set = False
                         log.note(
                             f"indirectly set value {candidate_val.str_value} on "
                             f"{escape(self.name_and_loc)} (by {escape(src.name_and_loc)}) is not a valid float."
